@@ -213,33 +213,7 @@ func runC06(c *Ctx) {
 			okReader := s.F.Name == "(*dht.IpfsDHT).FilteredAddrs" || s.F.Name == "dht.privRTFilter"
 			c.Check(K(s.F.Name, "reads host addresses"), s.Node.Pos(), okReader, "the host's raw address list is read only to be filtered (or to classify a connection in privRTFilter)", "host.Addrs() read in "+s.F.Name)
 		}
-		fa := c.Fn("(*dht.IpfsDHT).FilteredAddrs")
-		rets := fa.CFG().Returns()
-		okFA := len(rets) == 1 && len(rets[0].Results) == 1
-		if okFA {
-			call, isF := eng.IsCallTo(fa.Info(), rets[0].Results[0], "(*dht.IpfsDHT).filterAddrs")
-			okFA = isF && len(call.Args) == 1
-			if okFA {
-				_, okFA = eng.IsCallTo(fa.Info(), call.Args[0], "(github.com/libp2p/go-libp2p/core/host.Host).Addrs")
-			}
-		}
-		c.Check(K(fa.Name, "filters"), fa.Pos(), okFA, "FilteredAddrs is filterAddrs(host.Addrs())", "different expression")
-		fl := c.Fn("(*dht.IpfsDHT).filterAddrs")
-		okFl := false
-		for _, ret := range fl.CFG().Returns() {
-			if len(ret.Results) == 1 {
-				if call, ok := eng.Unparen(ret.Results[0]).(*ast.CallExpr); ok && len(call.Args) == 1 && eng.IsObj(fl.Info(), call.Args[0], paramObj(fl, "addrs")) {
-					g, _ := fl.CFG().Guarded(fl.CFG().LocOf(ret), func(ft eng.Fact) bool {
-						_, isNilF, ok := ft.NilFact()
-						return ok && !isNilF
-					})
-					if g {
-						okFl = true
-					}
-				}
-			}
-		}
-		c.Check(K(fl.Name, "applies configured filter"), fl.Pos(), okFl, "filterAddrs applies the configured address filter when one is set", "no `return f(addrs)` behind f != nil")
+		c06FilteredAddrs(c)
 	}
 
 	// R4 local provider record first
@@ -464,4 +438,35 @@ func runC06(c *Ctx) {
 		}
 		c.Check("optimistic schedule sites", 0, n == 2, "the optimistic provide schedules in two places", "found "+itoa(n))
 	}
+}
+
+// c06FilteredAddrs: the advertised address list is exactly filterAddrs(host.Addrs()).
+func c06FilteredAddrs(c *Ctx) {
+	fa := c.Fn("(*dht.IpfsDHT).FilteredAddrs")
+	rets := fa.CFG().Returns()
+	okFA := len(rets) == 1 && len(rets[0].Results) == 1
+	if okFA {
+		call, isF := eng.IsCallTo(fa.Info(), rets[0].Results[0], "(*dht.IpfsDHT).filterAddrs")
+		okFA = isF && len(call.Args) == 1
+		if okFA {
+			_, okFA = eng.IsCallTo(fa.Info(), call.Args[0], "(github.com/libp2p/go-libp2p/core/host.Host).Addrs")
+		}
+	}
+	c.Check(K(fa.Name, "filters"), fa.Pos(), okFA, "FilteredAddrs is filterAddrs(host.Addrs())", "different expression")
+	fl := c.Fn("(*dht.IpfsDHT).filterAddrs")
+	okFl := false
+	for _, ret := range fl.CFG().Returns() {
+		if len(ret.Results) == 1 {
+			if call, ok := eng.Unparen(ret.Results[0]).(*ast.CallExpr); ok && len(call.Args) == 1 && eng.IsObj(fl.Info(), call.Args[0], paramObj(fl, "addrs")) {
+				g, _ := fl.CFG().Guarded(fl.CFG().LocOf(ret), func(ft eng.Fact) bool {
+					_, isNilF, ok := ft.NilFact()
+					return ok && !isNilF
+				})
+				if g {
+					okFl = true
+				}
+			}
+		}
+	}
+	c.Check(K(fl.Name, "applies configured filter"), fl.Pos(), okFl, "filterAddrs applies the configured address filter when one is set", "no `return f(addrs)` behind f != nil")
 }
